@@ -157,7 +157,19 @@ type histCase struct {
 
 var svcNames = []string{"a", "b", "c", "d"} // "d" is never a dependency in most histories ("unknown")
 
+// cfgUnbuildable: a configuration that passes validation but for which no processor can be built (a protocol value without
+// a processor builder; in production that includes the declared but unimplemented MySQL)
+const cfgUnbuildable = 99
+
 func mkCfg(variant int) *service.Config {
+	if variant == cfgUnbuildable {
+		idle := time.Minute
+		return &service.Config{
+			Listener:    &service.Listener{Address: &common.Address{Ip: "127.0.0.1", Port: 20099}},
+			Protocol:    protocol.Protocol(7),
+			IdleTimeout: &idle,
+		}
+	}
 	if variant == 0 {
 		return &service.Config{Protocol: protocol.MySQL} // invalid: no listener
 	}
@@ -316,13 +328,13 @@ func checkHist(c histCase, uniq string) (inf histInfo, v *verdict) {
 		case "cfg":
 			cfg := mkCfg(o.Cfg)
 			if m := model[name(o.Svc)]; m != nil {
-				if o.Cfg == 0 {
+				if o.Cfg == 0 || o.Cfg == cfgUnbuildable {
 					if m.cfgValid {
 						return nil // invalid configs are only generated before the first valid one (see DESIGN)
 					}
 					inf.invalidFirst++
 				}
-				m.cfg, m.cfgValid = cfg, o.Cfg != 0
+				m.cfg, m.cfgValid = cfg, o.Cfg != 0 && o.Cfg != cfgUnbuildable
 			}
 			return func() { store.VerifSvcConfigUpdate(name(o.Svc), cfg) }
 		case "eps":
@@ -591,7 +603,7 @@ func genHist(t *rapid.T) histCase {
 		case x <= 7:
 			cfg := rapid.IntRange(1, 6).Draw(t, "cfg")
 			if rapid.IntRange(0, 5).Draw(t, "invalid") == 0 {
-				cfg = 0
+				cfg = rapid.SampledFrom([]int{0, cfgUnbuildable}).Draw(t, "invalidkind")
 			}
 			c.Ops = append(c.Ops, hop{Op: "cfg", Svc: svc, Cfg: cfg})
 		case x <= 15:
@@ -713,7 +725,7 @@ func TestConvergeStreams(t *testing.T) {
 		for i, n := 0, rapid.IntRange(1, 12).Draw(t, "ncfg"); i < n; i++ {
 			cfg := rapid.IntRange(1, 6).Draw(t, "cfg")
 			if rapid.IntRange(0, 6).Draw(t, "invalid") == 0 {
-				cfg = 0
+				cfg = rapid.SampledFrom([]int{0, cfgUnbuildable}).Draw(t, "invalidkind")
 			}
 			cfgs = append(cfgs, hop{Op: "cfg", Svc: rapid.IntRange(0, 1).Draw(t, "csvc"), Cfg: cfg})
 		}
@@ -765,3 +777,48 @@ func init() {
 }
 
 func TestReplay(t *testing.T) { vh.RunReplay(t) }
+
+// ---- known finding: a service whose first configuration validates but cannot be built never starts
+
+const sigUnbuildable = "service-never-started-after-unbuildable-config"
+
+// TestUnbuildableFirstConfig: directed histories of the known finding. The first configuration of a service names a protocol
+// without a processor (it passes validation; the controller fails to build the processor), endpoints arrive, the configuration
+// is corrected. The store sees valid -> valid and publishes a configuration event only, which the controller drops for a
+// service without a processor: the service never runs.
+func TestUnbuildableFirstConfig(t *testing.T) {
+	eps := []epRef{{Addr: 1}, {Addr: 2, Backup: true}}
+	for i, c := range []histCase{
+		{Ops: []hop{{Op: "dep", Added: []int{0}}, {Op: "cfg", Svc: 0, Cfg: cfgUnbuildable}, {Op: "eps", Svc: 0, EpAdd: eps}, {Op: "cfg", Svc: 0, Cfg: 2}}},
+		{Ops: []hop{{Op: "dep", Added: []int{0}}, {Op: "eps", Svc: 0, EpAdd: eps}, {Op: "cfg", Svc: 0, Cfg: cfgUnbuildable}, {Op: "cfg", Svc: 0, Cfg: 1}, {Op: "eps", Svc: 0, EpAdd: []epRef{{Addr: 3}}, EpRem: []epRef{{Addr: 1}}}}},
+		{FreeRun: true, Ops: []hop{{Op: "dep", Added: []int{0, 1}}, {Op: "cfg", Svc: 1, Cfg: 3}, {Op: "cfg", Svc: 0, Cfg: cfgUnbuildable}, {Op: "eps", Svc: 0, EpAdd: eps}, {Op: "eps", Svc: 1, EpAdd: eps}, {Op: "cfg", Svc: 0, Cfg: 4}}},
+	} {
+		_, v := checkHist(c, fmt.Sprintf("unb%d-", i))
+		vh.Rec().Case("unbuildable", true, vh.JSON(c))
+		vh.Rec().Sample("unbuildable", true, func() interface{} { return c })
+		if v == nil {
+			continue
+		}
+		if v.sig == "processor-missing" && vh.Known(sigUnbuildable) {
+			vh.ReportKnown(prop, sigUnbuildable, v.msg)
+			continue
+		}
+		sig := v.sig
+		if sig == "processor-missing" {
+			sig = sigUnbuildable
+		}
+		vh.Fail(t, vh.Failure{Property: prop, Part: "unbuildable", Signature: sig, Message: v.msg, Case: c})
+	}
+}
+
+func init() {
+	vh.RegisterReplay("unbuildable", func(t *testing.T, raw json.RawMessage) {
+		var c histCase
+		if err := json.Unmarshal(raw, &c); err != nil {
+			t.Fatal(err)
+		}
+		if _, v := checkHist(c, "replay-"); v != nil && !(v.sig == "processor-missing" && vh.Known(sigUnbuildable)) {
+			vh.Fail(t, vh.Failure{Property: prop, Part: "unbuildable", Signature: v.sig, Message: v.msg, Case: c})
+		}
+	})
+}
